@@ -995,6 +995,12 @@ class Interp:
                     if isinstance(mm, PropertyDef) and mm.fget is not None:
                         return self.call(BoundMethod(obj, mm.fget), [], {})
                 raise PyRaise("AttributeError", (name,), node)
+            if getattr(mem.fget, "cached", False):
+                # S-PY: functools.cached_property is a non-data descriptor - the value is computed once per instance and stored in the instance
+                # dictionary (where later reads find it first; it is copied with the instance and never recomputed)
+                val = self.call(BoundMethod(obj, mem.fget), [], {})
+                obj.f[name] = val
+                return val
             return self.call(BoundMethod(obj, mem.fget), [], {})
         if mem[0] == "const":
             return self.class_const(c, name, mem[1])
@@ -1008,6 +1014,8 @@ class Interp:
                 for cc in v.cls.mro(self):
                     mm = cc.members(self).get(name)
                     if isinstance(mm, PropertyDef):
+                        if mm.fset is None and getattr(mm.fget, "cached", False):
+                            break  # cached_property: assignment writes the instance attribute
                         if mm.fset is None:
                             raise PyRaise("AttributeError", (name,), node)
                         self.call(BoundMethod(v, mm.fset), [val], {})
